@@ -201,3 +201,14 @@ theorem printExt_isWord (a : Option Int) : isWordB (printExt a) = true := by
 def extIntCodec : Codec := ⟨Option Int, printExt, parseExt, printExt_isWord, parseExt_printExt⟩
 
 end PPLV.Dump
+
+namespace PPLV.Dump
+
+/-- opaque number tokens: any word stands for itself (used by the driver to check the *shape* grammars on
+number types whose literals are not modelled: rationals, floats) -/
+def wordCodec : Codec :=
+  ⟨{ w : Word // isWordB w = true }, fun a => a.1,
+   fun w => if h : isWordB w = true then some ⟨w, h⟩ else none,
+   fun a => a.2, fun a => by simp [a.2]⟩
+
+end PPLV.Dump
